@@ -81,7 +81,7 @@ fn base(method: &str, prob: Problem, x0: f64, xend: f64) -> Case {
     }
     Case {
         id: 0, api: "solve_ivp".into(), method: method.into(), problem: prob, x0, xend, y0,
-        rtol: vec![1e-3], atol: vec![1e-6], first_step: None, max_step: None, max_steps: None, t_eval: None, dense: false,
+        rtol: vec![1e-3], atol: vec![1e-6], first_step: None, max_step: None, max_steps: None, min_step: None, t_eval: None, dense: false,
         events: vec![], jac: "fd".into(), jac_storage: "full".into(), mass_storage: "identity".into(), mass: "none".into(),
         script: vec![], tags: vec![], budget: None, low_nodense: false, map: "id".into(),
     }
@@ -161,10 +161,10 @@ fn fam_core(o: &mut Out, quick: bool, rng: &mut Rng) {
             let p = probs[(mi + si) % probs.len()].clone();
             let mk = || base(m, p.clone(), *x0, *xend);
             let mut variants: Vec<(Case, &str)> = Vec::new();
+            let mut essential: Vec<(Case, &str)> = Vec::new();
             variants.push((mk(), "plain"));
             let mut c = mk(); c.dense = true; variants.push((c, "dense"));
             let mut c = mk(); c.max_step = Some(span.abs() / 4.0); c.dense = true; variants.push((c, "max_step_divides"));
-            let mut c = mk(); c.max_step = Some(span.abs() * 0.3); variants.push((c, "max_step_0.3"));
             let mut c = mk(); c.max_step = Some(f64::INFINITY); variants.push((c, "max_step_inf"));
             let mut c = mk(); c.first_step = Some(span / 8.0); c.dense = true; variants.push((c, "first_step_eighth"));
             let mut c = mk(); c.first_step = Some(span); variants.push((c, "first_step=span"));
@@ -175,22 +175,31 @@ fn fam_core(o: &mut Out, quick: bool, rng: &mut Rng) {
                 let mut c = mk(); c.first_step = Some(span / 8.0); c.max_step = Some(span.abs() / 16.0); variants.push((c, "first_step>max_step"));
             }
             let mut c = mk(); c.first_step = Some(span * 10.0); c.max_step = Some(f64::INFINITY); variants.push((c, "first_step>span+max_step_inf"));
-            let mut c = base(m, Problem::new("decay", 1e-3), *x0, *xend); c.max_step = Some(f64::INFINITY); variants.push((c, "slow+max_step_inf"));
             let mut c = mk(); c.t_eval = Some(linspace(*x0, *xend, 5)); variants.push((c, "t_eval5"));
             let mut c = mk(); c.t_eval = Some(linspace(*x0, *xend, 5)); c.dense = true; variants.push((c, "t_eval5+dense"));
             let mut c = mk(); c.max_steps = Some(3); variants.push((c, "max_steps3"));
             let mut c = mk(); c.max_steps = Some(1); c.dense = true; variants.push((c, "max_steps1"));
             let mut c = mk(); c.rtol = vec![1e-7]; c.atol = vec![1e-10]; variants.push((c, "tight"));
             let mut c = mk(); c.rtol = vec![1e-8]; c.atol = vec![1e-8]; c.first_step = Some(span); variants.push((c, "tight+first_step=span"));
-            let mut c = mk(); c.rtol = vec![1e-8]; c.atol = vec![1e-8]; c.first_step = Some(span * 2.5); c.max_step = Some(f64::INFINITY); variants.push((c, "tight+first_step>span"));
+
             if *m == "RADAU" || *m == "BDF" {
                 let mut c = mk(); c.jac = "user".into(); c.dense = true; variants.push((c, "userjac"));
             }
             if p.dim() > 1 {
                 let mut c = mk(); c.rtol = vec![1e-4; p.dim()]; c.atol = vec![1e-7; p.dim()]; variants.push((c, "vector_tol"));
             }
-            let keep = if quick { 12 } else { variants.len() };
-            // quick: rotate which variants are kept so that all of them occur across methods/spans
+            // corner variants that are always run
+            let mut c = mk(); c.max_step = Some(span.abs() / 10.0); c.first_step = Some(span / 10.0); essential.push((c, "max_step=first_step=span/10"));
+            let mut c = base(m, Problem::new("decay", 1e-3), *x0, *xend); c.max_step = Some(span.abs() * 0.02); essential.push((c, "slow+max_step_small"));
+            let mut c = base(m, Problem::new("decay", 1e-3), *x0, *xend); c.max_step = Some(f64::INFINITY); essential.push((c, "slow+max_step_inf"));
+            let mut c = mk(); c.rtol = vec![1e-8]; c.atol = vec![1e-8]; c.first_step = Some(span * 2.5); c.max_step = Some(f64::INFINITY); essential.push((c, "tight+first_step>span"));
+            let mut c = mk(); c.max_step = Some(span.abs() * 0.3); essential.push((c, "max_step_0.3"));
+            for (mut c, tag) in essential.drain(..) {
+                c.tags = vec![tag.to_string()];
+                o.run(c);
+            }
+            let keep = if quick { 9 } else { variants.len() };
+            // quick: rotate which of the other variants are kept so that all of them occur across methods/spans
             let rot = (mi * 5 + si * 3) % variants.len();
             for i in 0..variants.len().min(keep) {
                 let (mut c, tag) = variants[(i + rot) % variants.len()].clone();
@@ -224,6 +233,33 @@ fn fam_core(o: &mut Out, quick: bool, rng: &mut Rng) {
         c.first_step = Some(0.5);
         c.tags = vec!["newton_stress_discontinuous".into()];
         o.run(c);
+    }
+    // step budgets running out inside a run of rejections; lower step bound (min_step) with a failing right-hand side
+    for m in ["RADAU", "BDF"] {
+        for ms in [1usize, 2, 3, 6] {
+            let mut c = base(m, Problem::new("vdp", 50.0), 0.0, 5.0);
+            c.first_step = Some(0.5);
+            c.max_steps = Some(ms);
+            c.tags = vec!["newton_stress+budget".into()];
+            o.run(c);
+        }
+        // a switch to a very stiff law shortly before xend: the landing step is attempted with a stale Jacobian
+        for k in 0..(if quick { 6 } else { 24 }) {
+            let xend = 1.9 + 0.01 * k as f64;
+            let mut c = base(m, Problem::new("switch3", xend - 0.02), 0.0, xend);
+            c.jac = "user".into();
+            c.tags = vec!["stiff_switch_before_xend".into()];
+            o.run(c);
+        }
+    }
+    // max_step far below the solvers' built-in first-step guesses
+    for m in METHODS {
+        for (x0, xend) in [(0.0, 1e-5), (2.0, 2.0 - 1e-5)] {
+            let mut c = base(m, Problem::new("decay", 1.0), x0, xend);
+            c.max_step = Some(2.5e-7);
+            c.tags = vec!["max_step_tiny".into()];
+            o.run(c);
+        }
     }
     // degenerate front-end cases
     for m in METHODS {
@@ -288,6 +324,43 @@ fn fam_adversarial(o: &mut Out, quick: bool, _rng: &mut Rng) {
         (Problem::new("stiff", 1e6), 0.0, 0.01, "stiff_1e6"),
         (Problem::new("cube", 0.0), 0.0, 5.0, "cube"),
     ];
+    for m in ADAPTIVE {
+        for (p, x0, xend, tag, tol) in [
+            (Problem::new("blow2", 0.0), 0.0, 1.02, "blowup_y2_near_xend", 1e-2),
+            (Problem::new("blow2", 0.0), 0.0, 1.0001, "blowup_y2_near_xend", 1e-2),
+            (Problem::new("tan", 0.0), 0.0, 1.6, "blowup_tan_near_xend", 1e-2),
+            (Problem::new("nan_after", 0.5), 0.0, 0.55, "nan_near_xend", 1e-3),
+            (Problem::new("nan_after", 0.5), 0.0, 0.7, "nan_near_xend", 1e-3),
+            (Problem::new("inf_after", 0.5), 0.0, 0.52, "inf_near_xend", 1e-3),
+            (Problem::new("sqrtneg", 0.0), 0.0, 3.0, "domain_error", 1e-3),
+        ] {
+            let mut c = base(m, p, x0, xend);
+            c.rtol = vec![tol];
+            c.atol = vec![tol];
+            c.budget = Some(300_000);
+            c.tags = vec![tag.to_string()];
+            o.run(c.clone());
+            if m == "RADAU" || m == "BDF" {
+                let mut c2 = c.clone();
+                c2.jac = "user".into();
+                c2.tags = vec![tag.to_string(), "userjac".into()];
+                o.run(c2);
+            }
+        }
+    }
+    // a lower bound on the step size must not turn a failing right-hand side into endless retries
+    for m in ["RADAU", "BDF"] {
+        for (p, tag) in [(Problem::new("nan_after", 0.5), "nan_after+min_step"), (Problem::new("blow2", 0.0), "blowup_y2+min_step")] {
+            for ms in [None, Some(2000usize)] {
+                let mut c = base(m, p.clone(), 0.0, 2.0);
+                c.min_step = Some(1e-3);
+                c.max_steps = ms;
+                c.budget = Some(300_000);
+                c.tags = vec![tag.to_string(), if ms.is_some() { "finite_budget".into() } else { "default_budget".into() }];
+                o.run(c);
+            }
+        }
+    }
     for m in METHODS {
         for (p, x0, xend, tag) in &probs {
             if m == "RK4" && (*tag == "stiff_1e6") { continue; }
@@ -371,6 +444,30 @@ fn fam_lowlevel(o: &mut Out, quick: bool, rng: &mut Rng) {
                     o.run(c);
                 }
             }
+            if *m == "RK4" {
+                // the fixed step does not divide the interval: the last step is shortened
+                let mut c = base(m, Problem::new("sho", 0.0), *x0, *xend);
+                c.api = "low".into();
+                c.first_step = Some((xend - x0) * 0.3);
+                c.tags = vec!["step_not_dividing".into()];
+                o.run(c);
+            }
+            if *m == "DOP853" || *m == "RADAU" {
+                // long runs (stiffness detection of DOP853 is reached; Radau reuses its collocation polynomial)
+                let (p, xe) = if *m == "DOP853" { (Problem::new("vdp", 100.0), if quick { 60.0 } else { 200.0 }) } else { (Problem::new("robertson", 0.0), 400.0) };
+                let mut c = base(m, p, 0.0, xe);
+                c.api = "low".into();
+                c.rtol = vec![1e-6];
+                c.atol = vec![1e-10];
+                c.jac = "user".into();
+                c.tags = vec!["long_dense_ref".into()];
+                let dr = o.run(c.clone());
+                let mut cn = c.clone();
+                cn.low_nodense = true;
+                cn.tags = vec!["long_nodense".into()];
+                let nd = o.run(cn);
+                o.pair("C12", "equal_cb", &dr, &nd, "building dense coefficients or not does not change the integration");
+            }
             // solvers built with dense_output(false): same protocol, no interpolant
             if *m != "BDF" {
                 let mut c = base(m, Problem::new("logistic", 0.0), *x0, *xend);
@@ -384,6 +481,7 @@ fn fam_lowlevel(o: &mut Out, quick: bool, rng: &mut Rng) {
                 cd.tags = vec!["dense_ref".into()];
                 let dr = o.run(cd);
                 o.pair("C19", "equal_cb", &dr, &nd, "dense_output(false) does not change the accepted-step sequence");
+                o.pair("C12", "equal_cb", &dr, &nd, "building dense coefficients or not does not change the integration");
             }
             // doubling at the initial callback
             for p in [Problem::new("lin2", 0.0), Problem::new("decay", 1.0)] {
@@ -536,6 +634,32 @@ fn fam_terminal(o: &mut Out, quick: bool, rng: &mut Rng) {
     }
 }
 
+/// C10: a terminal event located inside the last accepted step (the step that lands on xend)
+fn fam_terminal_last(o: &mut Out, quick: bool) {
+    for m in METHODS {
+        for (x0, xend) in [(0.0, 2.0), (1.0, -1.0)] {
+            for tol in if quick { vec![1e-4] } else { vec![1e-3, 1e-6] } {
+                let mut c = base(m, Problem::new("sho", 0.0), x0, xend);
+                c.rtol = vec![tol];
+                c.atol = vec![tol * 1e-2];
+                if m == "RK4" { c.first_step = Some((xend - x0) / 9.5); }
+                c.tags = vec!["grid_run".into()];
+                let a = o.run(c.clone());
+                let grid: Vec<f64> = match &a.sol { Some(s) => s.t.clone(), None => continue };
+                if grid.len() < 3 { continue; }
+                let n = grid.len();
+                for frac in [0.5, 0.9] {
+                    let cpos = grid[n - 2] + (grid[n - 1] - grid[n - 2]) * frac;
+                    let mut v = c.clone();
+                    v.events = vec![EventSpec { kind: "t-c".into(), a: cpos, dir: "All".into(), term: 1 }];
+                    v.tags = vec!["terminal_in_last_step".into()];
+                    o.run(v);
+                }
+            }
+        }
+    }
+}
+
 // ---------------------------------------------------------------------------------------- symmetry
 /// C13: exact symmetries give bit-identical trajectories.
 fn fam_symmetry(o: &mut Out, quick: bool, rng: &mut Rng) {
@@ -565,6 +689,23 @@ fn fam_symmetry(o: &mut Out, quick: bool, rng: &mut Rng) {
             o.pair_f("C13", "mirror_events", &a, &b, "fact: event lists mirror under time reflection (counts equal, times to 1e-9)", ok);
         }
     }
+    // a long, stability-limited explicit run (stiffness detection is reached) and its reflection
+    for m in ["DOP853", "DOPRI5"] {
+        let mut c = base(m, Problem::new("relax", 2.0e4), 0.0, if quick { 1.5 } else { 5.0 });
+        c.y0 = vec![0.0];
+        c.rtol = vec![1e-6];
+        c.atol = vec![1e-8];
+        c.tags = vec!["reference_stiff_long".into()];
+        let a = o.run(c.clone());
+        let mut v = c.clone();
+        v.problem.reflect = true;
+        v.x0 = -c.x0;
+        v.xend = -c.xend;
+        v.map = "reflect".into();
+        v.tags = vec!["reflect_stiff_long".into()];
+        let b = o.run(v);
+        o.pair("C13", "equal", &a, &b, "time reflection of a stability-limited run");
+    }
     for ci in 0..ncase {
         let m = ADAPTIVE[ci % ADAPTIVE.len()];
         let implicit = m == "RADAU" || m == "BDF";
@@ -578,6 +719,7 @@ fn fam_symmetry(o: &mut Out, quick: bool, rng: &mut Rng) {
         c.atol = vec![10f64.powi(-6 - e)];
         c.jac = if implicit && ci % 2 == 0 { "user".into() } else { "fd".into() };
         c.events = vec![EventSpec { kind: "t-c".into(), a: x0 + (xend - x0) * 0.5, dir: "All".into(), term: 0 }];
+        if ci % 3 == 1 { c.max_step = Some((xend - x0).abs() * *rng.pick(&[0.02, 0.05, 0.11])); }   // a binding max_step
         c.tags = vec!["reference".into()];
         let a = o.run(c.clone());
         // (1) time reflection: z' = -f(-s, z) from -x0 to -xend
@@ -596,12 +738,12 @@ fn fam_symmetry(o: &mut Out, quick: bool, rng: &mut Rng) {
             let b = o.run(v);
             o.pair("C13", "equal", &a0r, &b, "time reflection");
         }
-        // (2) scalar tolerance written as a constant vector
-        {
+        // (2) scalar tolerance written as a constant vector (both, or only one of the two)
+        for (vr, va, tag) in [(true, true, "vector_tol"), (true, false, "vector_rtol_scalar_atol"), (false, true, "scalar_rtol_vector_atol")] {
             let mut v = c.clone();
-            v.rtol = vec![c.rtol[0]; p.dim()];
-            v.atol = vec![c.atol[0]; p.dim()];
-            v.tags = vec!["vector_tol".into()];
+            if vr { v.rtol = vec![c.rtol[0]; p.dim()]; }
+            if va { v.atol = vec![c.atol[0]; p.dim()]; }
+            v.tags = vec![tag.to_string()];
             let b = o.run(v);
             o.pair("C13", "equal", &a, &b, "scalar tolerance as constant vector");
         }
@@ -654,13 +796,13 @@ fn fam_symmetry(o: &mut Out, quick: bool, rng: &mut Rng) {
 // ----------------------------------------------------------------------------------------- storage
 /// C15: mass / Jacobian storage and the absence of a mass matrix do not change the trajectory.
 fn fam_storage(o: &mut Out, quick: bool, rng: &mut Rng) {
-    let probs = vec![Problem::new("cascade4", 8.0), Problem::new("chain4", 60.0), Problem::new("lin3", 0.0), Problem::new("robertson", 0.0), Problem::new("vdp", 10.0), Problem::new("decay", 3.0), Problem::new("lin2", 0.0)];
-    let ncase = if quick { 7 } else { 42 };
+    let probs = vec![Problem::new("cascade4", 8.0), Problem::new("vdp", 1000.0), Problem::new("chain4", 60.0), Problem::new("lin3", 0.0), Problem::new("robertson", 0.0), Problem::new("vdp", 10.0), Problem::new("decay", 3.0), Problem::new("lin2", 0.0)];
+    let ncase = if quick { 8 } else { 48 };
     for ci in 0..ncase {
         let p = probs[ci % probs.len()].clone();
         let mut p = p;
         if ci >= probs.len() && p.base_dim() <= 2 { p.copies = 1 + rng.below(3); }
-        let xend = if p.kind == "robertson" { 40.0 } else if p.kind == "chain4" { 6.0 } else if p.kind == "cascade4" { 30.0 } else { 1.0 };
+        let xend = if p.kind == "robertson" { 40.0 } else if p.kind == "chain4" { 6.0 } else if p.kind == "cascade4" { 30.0 } else if p.kind == "vdp" && p.p > 100.0 { 3.0 } else { 1.0 };
         for m in ["RADAU", "BDF"] {
             let mut c = base(m, p.clone(), 0.0, xend);
             c.jac = "user".into();
@@ -668,17 +810,22 @@ fn fam_storage(o: &mut Out, quick: bool, rng: &mut Rng) {
             c.atol = vec![1e-8];
             c.tags = vec!["ref_identity_full".into()];
             let a = o.run(c.clone());
-            // Jacobian storage Full vs Banded (band wide enough for the pattern)
-            let mut v = c.clone();
-            v.jac_storage = "banded".into();
-            v.tags = vec!["jac_banded".into()];
-            let b = o.run(v);
-            o.pair("C15", "equal", &a, &b, "Jacobian storage Full vs Banded");
+            // Jacobian storage Full vs Banded (band wide enough for the pattern; also wider than the matrix)
+            for js in ["banded".to_string(), format!("banded:{},{}", p.dim(), p.dim() + 1)] {
+                let mut v = c.clone();
+                v.jac_storage = js.clone();
+                v.tags = vec![if js == "banded" { "jac_banded".into() } else { "jac_banded_wide".into() }];
+                let b = o.run(v);
+                o.pair("C15", "equal", &a, &b, "Jacobian storage Full vs Banded");
+            }
             if m == "RADAU" {
                 let nn = p.dim();
-                let asym: Vec<(String, &str)> = if nn >= 2 {
+                let mut asym: Vec<(String, &str)> = if nn >= 2 {
                     vec![("banded:0,1".to_string(), "none"), ("banded:1,0".to_string(), "none"), (format!("banded:{},0", nn - 1), "none"), ("banded:0,1".to_string(), "identity")]
                 } else { vec![] };
+                // a band declared wider than the matrix is a valid layout
+                asym.push((format!("banded:{},{}", nn, nn), "none"));
+                asym.push((format!("banded:{},{}", nn + 1, nn), "identity"));
                 for (ms, mass) in asym.iter().map(|(a, b)| (a.as_str(), *b)) {
                     let mut v = c.clone();
                     v.mass_storage = ms.into();
@@ -760,12 +907,18 @@ fn fam_teval(o: &mut Out, quick: bool, rng: &mut Rng) {
         let mut v = c.clone(); v.dense = true; v.t_eval = Some(te.clone()); v.tags = vec!["t_eval+dense".into()]; variants.push(v);
         let mut v = c.clone(); v.dense = false; v.t_eval = Some(te.clone()); v.tags = vec!["t_eval".into()]; variants.push(v);
         let mut v = c.clone(); v.dense = true; v.t_eval = Some(te.clone()); v.max_steps = Some(1 + rng.below(grid.len())); v.tags = vec!["t_eval+budget".into()]; variants.push(v);
+        let mut te2 = te.clone();
+        te2.pop();
+        te2.push(xend - dir * 0.5e-12);
+        te2.sort_by(|a, b| (dir * a).partial_cmp(&(dir * b)).unwrap());
+        let mut v = c.clone(); v.dense = ci % 2 == 0; v.t_eval = Some(te2); v.tags = vec!["t_eval_last_near_xend".into()]; variants.push(v);
         let mut v = c.clone(); v.dense = true; v.t_eval = Some(te.clone());
         v.events = vec![EventSpec { kind: "t-c".into(), a: x0 + (xend - x0) * rng.range(0.2, 0.9), dir: "All".into(), term: 1 }];
         v.tags = vec!["t_eval+terminal".into()]; variants.push(v);
         let mut recs = Vec::new();
         for v in variants { recs.push(o.run(v)); }
         o.pair("C05", "dense_indep", &recs[0], &recs[1], "t_eval values do not depend on dense_output");
+        o.pair("C12", "observer", &a, &recs[0], "t_eval next to accepted step ends changes only what is reported");
         let rel = if m == "BDF" { 1e-7 } else { 1e-9 };
         for r in &recs {
             let ok = grid_values_ok(&a, r, rel);
@@ -847,7 +1000,7 @@ fn main() {
             "lowlevel" => fam_lowlevel(&mut o, quick, &mut rng),
             "observer" => fam_observer(&mut o, quick, &mut rng),
             "budget" => fam_budget(&mut o, quick, &mut rng),
-            "terminal" => fam_terminal(&mut o, quick, &mut rng),
+            "terminal" => { fam_terminal(&mut o, quick, &mut rng); fam_terminal_last(&mut o, quick); }
             "symmetry" => fam_symmetry(&mut o, quick, &mut rng),
             "storage" => fam_storage(&mut o, quick, &mut rng),
             "teval" => fam_teval(&mut o, quick, &mut rng),
